@@ -447,6 +447,10 @@ def run_step(ctx, exes, variants, lin, stats, n, corpus, spec=None):
         rng = ctx.rng.fork()
         extra = gen_step_cases(ctx, rng, 3000, "x" + name, spec["variants"])
         found = observable(ctx, exes, variants, lin, {spec["shard"]: extra}, "search_" + name, {}, report=True)
+        if not found and name == "iterable":
+            # random programs did not expose it: the targeted family (every preemption point of an insert behind an empty node)
+            spec["_targeted"] = run_iter_targeted(ctx, exes, variants, lin, "full", "the step correspondence with LV.Model.IterList diverged")
+            found = spec["_targeted"]["iter_targeted_bad"]
         if not found:
             ctx.violation("step correspondence between %s no longer holds" % spec["what"],
                           {"correspondence": spec["what"], "case": c, "first_divergence": d}, no_input=True)
@@ -555,6 +559,133 @@ def run_iter_aba(ctx, exes, variants, lin, shard_of, model=None):
     return info
 
 
+# --------------------------------------------------------------------------------------------------
+# IterableList: targeted family on the real code.  link_data() re-uses an empty predecessor node; what protects the order
+# of the list is the chain of re-checks after the data marks (prev->next == cur, find_prev).  The family drives an
+# insert / inserting update to the point where its predecessor is an empty node and lets a second thread run short
+# sequences (insert-between, fill and empty the predecessor, insert in front of it) at every preemption point of
+# that operation (single preemption; for the pattern sequences also a second preemption).  On the unchanged tree every
+# case passes (quiescent order / duplicate monitor, size, verified lincheck): the open known finding
+# iterlist-null-prev-aba-find-prev-stale needs two preemptions of the inserting thread with five operations of other
+# threads in between, which no member of this family has.  A case that fails here is therefore a new violation.
+ITER_SETUPS = {
+    "e2": [[1, 0, 0, 0], [1, 3, 0, 0], [1, 1, 0, 0], [4, 1, 0, 0], [4, 0, 0, 0]],      # H -> N(null) -> N(null) -> N(3)
+    "e1": [[1, 1, 0, 0], [1, 3, 0, 0], [4, 1, 0, 0]],                                  # H -> N(null) -> N(3)
+    "e2b": [[1, 0, 0, 0], [1, 1, 0, 0], [1, 3, 0, 0], [4, 0, 0, 0], [4, 1, 0, 0]],
+}
+ITER_CORE_B = [[[1, 2, 0, 0], [1, 1, 0, 0], [4, 2, 0, 0]], [[1, 2, 0, 0], [1, 1, 0, 0], [4, 1, 0, 0]],
+               [[1, 1, 0, 0], [1, 2, 0, 0], [4, 2, 0, 0]], [[1, 2, 0, 0], [4, 2, 0, 0], [1, 1, 0, 0]]]
+
+
+def iter_b_sequences():
+    """sequences of <= 3 successful-looking operations of the second thread over keys 0..2: an erase targets a key the
+    sequence inserted before, an insert a key it does not hold"""
+    out = []
+    def rec(seq, held):
+        if seq:
+            out.append(list(seq))
+        if len(seq) == 3:
+            return
+        for k in (0, 1, 2):
+            if k in held:
+                rec(seq + [[4, k, 0, 0]], held - {k})
+            else:
+                rec(seq + [[1, k, 0, 0]], held | {k})
+    rec([], frozenset())
+    return [q for q in out if len(q) >= 2]
+
+
+def run_chunks(ctx, exe, cases, tag, nproc=None):
+    nproc = nproc or max(1, min(vcheck.NCPU, 12))
+    chunks = [cases[i::nproc] for i in range(nproc)]
+    logs = {}
+    with concurrent.futures.ThreadPoolExecutor(max_workers=nproc) as ex:
+        futs = [ex.submit(run_shard, ctx, exe, ch, "%s_%d" % (tag, i)) for i, ch in enumerate(chunks) if ch]
+        for f in futs:
+            rc, lg, raw = f.result(); logs.update(lg)
+    return logs
+
+
+def iter_targeted_cases(ctx, exe, level):
+    """level 'core': the pattern sequences only (always run); 'full': every short sequence + double preemption"""
+    vids = (40,) if level == "core" else (40, 43)
+    setups = ("e2", "e1") if level == "core" else ("e2", "e1", "e2b")
+    aops = ((1, 0), (3, 1)) if level == "core" else ((1, 0), (2, 0), (3, 1))
+    akeys = (0,) if level == "core" else (0, 1, 2)
+    bseqs = ITER_CORE_B if level == "core" else iter_b_sequences()
+    # length (scheduler steps) of the inserting thread up to the end of its operation, measured on the real code
+    probes = []
+    for vid in vids:
+        for sn in setups:
+            probes.append({"id": "len_%d_%s" % (vid, sn), "cfg": [vid, 1, 20000], "threads": [ITER_SETUPS[sn]], "sched": []})
+            for code, x in aops:
+                for ka in akeys:
+                    probes.append({"id": "len_%d_%s_%d_%d" % (vid, sn, code, ka), "cfg": [vid, 1, 20000],
+                                   "threads": [ITER_SETUPS[sn] + [[code, ka, x, 0]]], "sched": []})
+    plog = run_chunks(ctx, exe, probes, "itlen", nproc=2)
+    def steps(cid):
+        lg = plog.get(cid)
+        return None if lg is None else sum(1 for l in lg["lines"] if " ev " not in l)
+    cases = []
+    for vid in vids:
+        for sn in setups:
+            base = steps("len_%d_%s" % (vid, sn))
+            for code, x in aops:
+                for ka in akeys:
+                    end = steps("len_%d_%s_%d_%d" % (vid, sn, code, ka))
+                    if base is None or end is None:
+                        continue
+                    ta = ITER_SETUPS[sn] + [[code, ka, x, 0], [9, ka, 0, 0]]
+                    for bi, b in enumerate(bseqs):
+                        for s0 in range(max(0, base - 1), end + 1):
+                            cases.append({"id": "it_%s_%d_%s_%d_%d_%d_%d" % (level, vid, sn, code, ka, bi, s0), "cfg": [vid, 0, 20000],
+                                          "threads": [ta, b], "sched": [0] * s0 + [1] * 400})
+                    if level == "full" and vid == 40:
+                        # a second preemption: the other thread is stopped after m of its steps, the inserter runs d steps
+                        for bi, b in enumerate(ITER_CORE_B):
+                            for s0 in range(max(0, base - 1), end + 1, 2):
+                                for m in (15, 30, 45, 60, 80, 100, 120):
+                                    for d in (4, 10, 20, 40):
+                                        cases.append({"id": "it2_%d_%s_%d_%d_%d_%d_%d_%d" % (vid, sn, code, ka, bi, s0, m, d), "cfg": [vid, 0, 20000],
+                                                      "threads": [ta, b], "sched": [0] * s0 + [1] * m + [0] * d + [1] * 400})
+    return cases
+
+
+def run_iter_targeted(ctx, exes, variants, lin, level, why):
+    exe = exes[6]
+    cases = iter_targeted_cases(ctx, exe, level)
+    logs = run_chunks(ctx, exe, cases, "ittar_" + level)
+    an = []
+    for c in cases:
+        lg = logs.get(c["id"])
+        an.append(analyse_case(c, lg) if lg is not None and lg["end"] in ("finished", "fuel") else None)
+    idx = [i for i, a in enumerate(an) if a is not None]
+    verdicts = lincheck_batch(ctx, lin, "set", [an[i]["lines"] for i in idx], "ittar_" + level)
+    for i, v in zip(idx, verdicts):
+        an[i]["verdict"] = v
+    bad = []
+    for c, a in zip(cases, an):
+        if a is None:
+            bad.append((c, None, "the harness produced no output (crash or hang of the real IterableList)"))
+        elif not a["finished"]:
+            bad.append((c, a, "operations on the real IterableList do not terminate within 20000 scheduled steps"))
+        elif a["verdict"] != "OK":
+            bad.append((c, a, "history on %s is not linearizable to the sequential set (verified lincheck: %s)" % (variants.get(c["cfg"][0]), a["verdict"])))
+        elif a["problems"]:
+            bad.append((c, a, "%s: %s" % (variants.get(c["cfg"][0]), a["problems"][0])))
+    kinds = {}
+    for c, a, what in bad:          # one report per kind of failure, the shortest schedule first
+        key = what.split(":")[0] if a is None or a["verdict"] == "OK" else "notlin"
+        if key not in kinds or len(c["sched"]) < len(kinds[key][0]["sched"]):
+            kinds[key] = (c, a, what)
+    for c, a, what in kinds.values():
+        ctx.violation("IterableList targeted family (%s; a thread is preempted inside an insert whose predecessor is an empty node, a second thread runs %d operations): %s"
+                      % (why, len(c["threads"][1]), what),
+                      {"case": c, "variant": variants.get(c["cfg"][0]), "history": None if a is None else a["lines"], "problems": None if a is None else a["problems"],
+                       "verdict": None if a is None else a.get("verdict"), "final_keys": None if a is None else a["keys"]}, signature=None)
+    return {"iter_targeted_level": level, "iter_targeted_cases": len(cases), "iter_targeted_bad": len(bad)}
+
+
 def run(ctx):
     exes = build_shards(ctx, SHARDS)
     variants = {}; shard_of = {}
@@ -659,6 +790,10 @@ def run(ctx):
     hpinfo = run_hp_copy(ctx)
     ctx.log("hp guard-copy scenario: %(hp_copy_cases)d schedules, %(hp_copy_use_after_dispose)d with a use after dispose" % hpinfo)
     ctx.coverage.update(hpinfo)
+    itspec = [sp for sp in STEP_MODELS if sp["name"] == "iterable"][0]
+    itinfo = itspec.get("_targeted") or run_iter_targeted(ctx, exes, variants, lin, "full" if ctx.thorough() else "core", "always-on sweep")
+    ctx.log("iterable targeted family [%(iter_targeted_level)s]: %(iter_targeted_cases)d schedules, %(iter_targeted_bad)d failing" % itinfo)
+    ctx.coverage.update(itinfo)
     iainfo = run_iter_aba(ctx, exes, variants, lin, shard_of, model=[sp for sp in STEP_MODELS if sp["name"] == "iterable"][0].get("_model"))
     ctx.log("iterable null-prev ABA scenario: %(iter_aba_cases)d schedules, %(iter_aba_hits)d end out of order / not linearizable" % iainfo)
     ctx.coverage.update(iainfo)
